@@ -716,6 +716,29 @@ def name_class(name: str, code: str) -> str:
     return "other"
 
 
+def counterfactual(code: str, kind: str, ev: dict, hid: list[dict]) -> dict | None:
+    """An import exception that is not raised in a class with a hiding problem: is it nevertheless
+    caused by one?  Rename the hiding member (one class-level binding at a time) and import again; the
+    hiding is the cause when the renamed module imports (or fails differently)."""
+    tried = set()
+    for p in hid:
+        if p["observed_at"] != "import" or (p["cls"], p["name"]) in tried:
+            continue
+        tried.add((p["cls"], p["name"]))
+        new_code = cs.rename_member(code, p["cls"], p["name"], p["name"] + "_renamed_by_verif")
+        if new_code is None:
+            continue
+        try:
+            mod = e2e.load_module(new_code, kind)
+        except Exception as e:  # noqa: BLE001
+            if cs.bucket_key(cs.exception_text(e)) != cs.bucket_key(ev["text"]):
+                return p
+            continue
+        e2e.unload(mod)
+        return p
+    return None
+
+
 class Buckets:
     """exceptions of emitted modules that are not name-binding failures: counted per bucket, one
     example each, with the disposition found when the bucket was investigated (cs.TRIAGE)"""
@@ -814,8 +837,16 @@ def oracle_module(ck: Check, camp, inp: dict, code: str, kind: str, executable: 
                 failures.append((shadow_classification(p, kind, "static+dynamic", inp, code, "exception"),
                                  f"{ev['text']} at {ev['where']}: member {p['name']!r} of {p['cls']} ({p['hider_binding']}) hides the name {p['name']} used by the {p['use_kind']} of {p['cls']}.{p['user']}"))
             else:
-                disp = buckets.add(ev, inp, code)
-                camp.hit("exception_not_name_binding:" + disp)
+                p = counterfactual(code, kind, ev, hid) if want == "import" and ev["where"] == "module import" else None
+                if p is not None:  # the exception surfaces in another class (pydantic completes a deferred class later): causal test
+                    demonstrated.update(i for i, q in enumerate(hid) if q["cls"] == p["cls"])
+                    camp.hit("attributed_by_counterfactual_rename")
+                    failures.append((shadow_classification(p, kind, "static+dynamic", inp, code, "exception_elsewhere"),
+                                     f"{ev['text']} at {ev['where']} (statement of {ev['top']}); with the member {p['name']!r} of {p['cls']} renamed the module imports: "
+                                     f"it hides the name {p['name']} used by the {p['use_kind']} of {p['cls']}.{p['user']}"))
+                else:
+                    disp = buckets.add(ev, inp, code)
+                    camp.hit("exception_not_name_binding:" + disp)
         for s in obs["silent"]:
             cands = [i for i, p in enumerate(hid) if p["cls"] == s["cls"] and p["user"] == s["member"] and p["phase"] == "class_creation" and p["effect"] in ("passed_on", "value_dependent")]
             if cands:
